@@ -55,8 +55,10 @@ Fixpoint inode_eqb (a b : inode) : bool :=
   | _, _ => false
   end.
 
-Definition says_opt (evs : list wevent) (t : inode) : bool :=
-  match itree_of_events evs with Some e => doc_says e t | None => true end.
+Definition expected (cfg : wconfig) (evs : list wevent) : option enode :=
+  expected_tree (cfg_schema_location cfg) (cfg_no_ns_schema_location cfg) evs.
+Definition says_opt (cfg : wconfig) (evs : list wevent) (t : inode) : bool :=
+  match expected cfg evs with Some e => doc_says e t | None => true end.
 
 (* -------- correspondence: lxml writer, as infoset (names, attributes in order, text) and
    the verdict of `says` (which depends on the in-scope declarations) *)
@@ -64,7 +66,7 @@ Definition agree_lxml (c : wcase) : bool :=
   match run_lxml (c_cfg c) (c_user c) (c_evs c), c_lxml c with
   | inr SinkUnmodelled, _ => true                               (* the sink model abstains *)
   | inl t, ObsOut _ (Some p) =>
-      inode_eqb (erase_ns t) (erase_ns p) && Bool.eqb (says_opt (c_evs c) t) (says_opt (c_evs c) p)
+      inode_eqb (erase_ns t) (erase_ns p) && Bool.eqb (says_opt (c_cfg c) (c_evs c) t) (says_opt (c_cfg c) (c_evs c) p)
   | inr e, ObsErr n => str_eqb (perr_name e) n
   | _, _ => false
   end.
@@ -77,7 +79,7 @@ Definition agree_resolve (c : wcase) : bool :=
   | inl d, ObsOut _ p =>
       match resolve d, p with
       | Some t, Some t' => inode_eqb (erase_ns t) (erase_ns t')
-                           && Bool.eqb (says_opt (c_evs c) t) (says_opt (c_evs c) t')
+                           && Bool.eqb (says_opt (c_cfg c) (c_evs c) t) (says_opt (c_cfg c) (c_evs c) t')
       | None, None => true
       | _, _ => false
       end
@@ -87,8 +89,8 @@ Definition agree_resolve (c : wcase) : bool :=
 (* -------- oracle: the property, judged on what the implementation produced *)
 Definition sanctioned (n : str) : bool :=
   str_eqb n (perr_name PyXmlWriterError) || str_eqb n s_serializer_error.
-Definition oracle_obs (evs : list wevent) (o : obs) : bool :=
-  match itree_of_events evs with
+Definition oracle_obs (cfg : wconfig) (evs : list wevent) (o : obs) : bool :=
+  match expected cfg evs with
   | None => true                                   (* not an event list of the grammar: no claim *)
   | Some e =>
       match o with
@@ -97,8 +99,8 @@ Definition oracle_obs (evs : list wevent) (o : obs) : bool :=
       | ObsOut _ (Some t) => doc_says e t
       end
   end.
-Definition oracle_native (c : wcase) : bool := oracle_obs (c_evs c) (c_native c).
-Definition oracle_lxml (c : wcase) : bool := oracle_obs (c_evs c) (c_lxml c).
+Definition oracle_native (c : wcase) : bool := oracle_obs (c_cfg c) (c_evs c) (c_native c).
+Definition oracle_lxml (c : wcase) : bool := oracle_obs (c_cfg c) (c_evs c) (c_lxml c).
 (* both writers say the same (half of C08) *)
 Definition oracle_sinks_agree (c : wcase) : bool :=
   match c_native c, c_lxml c with
